@@ -252,7 +252,7 @@ func regexMatrix(dir string, patterns []string) *RegexMatrix {
 	seq := uint64(1000)
 	e := &env{dir: dir, clock: 1, seq: &seq}
 	e.open()
-	out := &RegexMatrix{Kind: "regex", Fail: []Fail{}}
+	out := &RegexMatrix{Kind: "regex", Perl: perlMode, Fail: []Fail{}}
 	probes := map[string][]string{}
 	all := map[string]bool{}
 	for _, v := range vals {
@@ -285,7 +285,7 @@ func regexMatrix(dir string, patterns []string) *RegexMatrix {
 		g1 := e.queryIDs(probeMst, x)
 		must(e.b.ClearCache())
 		g2 := e.queryOpts(probeMst, x)
-		if !eqU(g1, g2) {
+		if !eqU(g1, g2) && !perlMode {
 			out.Fail = append(out.Fail, Fail{Kind: "atom-paths-differ", Op: pi, What: fmt.Sprintf("k =~ /%s/ on the probe series: show-series path %v, select path %v", p, g1, g2)})
 		}
 		in := map[uint64]bool{}
